@@ -378,3 +378,25 @@ func getRequiredArray(entry interface{}) ([]interface{}, error) {
 
 	return arr, nil
 }
+
+// validateEntries checks that the key or service entries of a patch are given as a list of JSON objects.
+// The typed views of such a list (document.ParsePublicKeys / ParseServices) skip whatever is not an object,
+// so such members would escape every rule and - for a replace patch - end up in the document as they are.
+func validateEntries(entries interface{}) error {
+	if entries == nil {
+		return nil
+	}
+
+	list, ok := entries.([]interface{})
+	if !ok {
+		return errors.New("expected array of entries")
+	}
+
+	for _, entry := range list {
+		if _, ok := entry.(map[string]interface{}); !ok {
+			return errors.New("entry is not an object")
+		}
+	}
+
+	return nil
+}
